@@ -19,8 +19,10 @@ COMMANDS_ERR = COMMANDS_OK + ['/nonexistent/cmd', '/nonexistent/cmd', 'vstatus:e
 
 
 class Gen:
-    def __init__(self, rng, depth=2, rules_max=3, interp=True, attachments=True, errors=True, dates=True):
+    def __init__(self, rng, depth=2, rules_max=3, interp=True, attachments=True, errors=True, dates=True, ctl_anywhere=False):
         self.rng = rng
+        # pass / break at any position of an action list and repeated (the grammar accepts every placement; see actions())
+        self.ctl_anywhere = ctl_anywhere
         self.depth = depth
         self.rules_max = rules_max
         self.interp = interp
@@ -126,7 +128,14 @@ class Gen:
         elif k < 0.35:
             acts.append('break')
         elif k < 0.38:
-            acts.insert(0, r.choice(['pass', 'break']))     # unusual placement (modelled, not claimed)
+            acts.insert(0, r.choice(['pass', 'break']))     # control action first
+        elif self.ctl_anywhere and k < 0.60:
+            # pass / break anywhere, one to three of them.  Inside the domain of C03_eval_refines_spec(_att)_wide (Proofs.ctlPlaced):
+            # break anywhere and repeated with every attachment block before the first break, pass repeated at the end.  The
+            # three named classes outside it are produced too: something after a pass (AFTERPASS: ignored by the evaluator), an
+            # attachment block after a break (ATTAFTERBREAK), pass and break in one list (MIXED: no documented meaning).
+            for _ in range(r.choice([1, 1, 2, 3])):
+                acts.insert(r.randrange(len(acts) + 1), r.choice(['break', 'break', 'break', 'pass']))
         return ' '.join(acts)
 
     def rule(self, depth):
